@@ -93,6 +93,7 @@ class Path:
         self.value = None   # expanded return / raise expression
         self.node = None
         self.loops = {}     # id(loop statement) -> [Path] of one iteration of its body
+        self.notnone = set()  # opaque names known to hold a freshly constructed object (never None)
 
     def fork(self):
         p = Path()
@@ -100,6 +101,7 @@ class Path:
         p.effects = list(self.effects)
         p.env = dict(self.env)
         p.loops = dict(self.loops)
+        p.notnone = set(self.notnone)
         return p
 
     def loop_paths(self):
@@ -149,6 +151,7 @@ class _Expand(ast.NodeTransformer):
     visit_ListComp = visit_SetComp = visit_DictComp = visit_GeneratorExp = _comp
 
 
+CONSTRUCTORS = {"bytes", "int", "str", "list", "tuple", "dict", "set", "bytearray", "bool", "float", "iter", "len", "repr"}
 IMPURE_CALLS = {"next", "print", "input", "open", "iter", "exit", "sys.exit"}
 IMPURE_METHODS = {"append", "extend", "insert", "pop", "remove", "clear", "update", "setdefault", "add", "discard", "sort", "reverse",
                   "popitem", "send", "throw", "close", "write", "read", "set_constraint", "assert_done", "bytes_processed",
@@ -314,6 +317,10 @@ class Summariser:
                 yield from self.outcomes(e.body if v else e.orelse, q)
             return
         f = self.fold(e)
+        if f is None and isinstance(e, ast.Compare) and len(e.ops) == 1 and isinstance(e.ops[0], (ast.Is, ast.IsNot)) \
+                and isinstance(e.left, ast.Name) and e.left.id in p.notnone and isinstance(e.comparators[0], ast.Constant) \
+                and e.comparators[0].value is None:
+            f = isinstance(e.ops[0], ast.IsNot)
         if f is not None:
             yield p, f
             return
@@ -396,8 +403,12 @@ class Summariser:
             elif value is not None and not self.is_effectful(value):
                 # `value` is already expanded: a mention of the target itself denotes the target's previous value
                 p.env[target.id] = value
+                p.notnone.discard(target.id)
             else:
                 p.env[target.id] = None
+                p.notnone.discard(target.id)
+                if value is not None and isinstance(value, ast.Call) and norm(value.func) in CONSTRUCTORS:
+                    p.notnone.add(target.id)
                 if value is not None and self.is_effectful(value):
                     p.effects.append(("bind", ast.Assign(targets=[ast.Name(id=target.id, ctx=ast.Store())], value=value, lineno=0), node))
                 elif value is not None:
@@ -428,20 +439,19 @@ class Summariser:
         raise AnalysisError(f"path summariser: unmodelled assignment target `{norm(target)}`")
 
     def fork_value(self, e, p):
-        """paths x expanded value for an expression whose top level may be a conditional expression"""
-        e = self.expand(e, p)
-        if isinstance(e, ast.IfExp):
-            for q, v in self.outcomes(e.test, p):
-                yield from self.fork_value_expanded(e.body if v else e.orelse, q)
-        else:
-            yield p, e
+        """paths x expanded value: conditional expressions anywhere in the value (outside lambdas and comprehensions) fork
+        the path, so `x = a if c else b`, an if/else statement and a conditional nested in a call argument or an f-string
+        all summarise alike"""
+        yield from self.fork_value_expanded(self.expand(e, p), p)
 
     def fork_value_expanded(self, e, p):
-        if isinstance(e, ast.IfExp):
-            for q, v in self.outcomes(e.test, p):
-                yield from self.fork_value_expanded(e.body if v else e.orelse, q)
-        else:
+        hit = _first_ifexp(e)
+        if hit is None:
             yield p, e
+            return
+        for q, v in self.outcomes(hit.test, p):
+            arm = hit.body if v else hit.orelse
+            yield from self.fork_value_expanded(_replace(e, hit, arm), q)
 
     def step(self, st, p):
         if isinstance(st, (ast.Pass, ast.Import, ast.ImportFrom, ast.Global, ast.Nonlocal)):
@@ -462,8 +472,11 @@ class Summariser:
             if isinstance(v, ast.YieldFrom):
                 p.effects.append(("yieldfrom", self.expand(v.value, p), st))
                 return [p]
-            p.effects.append(("call", self.expand(v, p), st))
-            return [p]
+            out = []
+            for q, e in self.fork_value(v, p.fork()):
+                q.effects.append(("call", e, st))
+                out.append(q)
+            return out
         if isinstance(st, ast.Assign):
             v = st.value
             if isinstance(v, ast.Yield):
@@ -492,9 +505,9 @@ class Summariser:
             return out
         if isinstance(st, ast.AugAssign):
             if isinstance(st.target, ast.Name):
-                cur = p.env.get(st.target.id)
+                cur = p.env.get(st.target.id) or ast.Name(id=st.target.id, ctx=ast.Load())
                 val = self.expand(st.value, p)
-                if cur is not None and not self.is_effectful(val):
+                if not self.is_effectful(val):
                     p.env[st.target.id] = ast.BinOp(left=cur, op=st.op, right=val)
                     ast.fix_missing_locations(p.env[st.target.id])
                 else:
@@ -554,6 +567,7 @@ class Summariser:
             p.loops[id(st)] = sub
             for w in _written(st):
                 p.env[w] = None
+                p.notnone.discard(w)
             outs = [p]
             # a return / raise inside the loop ends the function on that path
             for s in sub:
@@ -582,6 +596,7 @@ class Summariser:
             p.loops[id(st)] = sub
             for w in _written(st):
                 p.env[w] = None
+                p.notnone.discard(w)
             outs = [p]
             for s in sub:
                 if s.end in ("return", "raise"):
@@ -643,12 +658,46 @@ class Summariser:
         raise AnalysisError(f"path summariser: unmodelled statement `{norm(st).splitlines()[0][:60]}` in {self.fn.name}")
 
 
+def _first_ifexp(e):
+    stack = [e]
+    while stack:
+        n = stack.pop(0)
+        if isinstance(n, ast.IfExp):
+            return n
+        if isinstance(n, (ast.Lambda, ast.ListComp, ast.SetComp, ast.DictComp, ast.GeneratorExp)):
+            continue
+        stack[0:0] = list(ast.iter_child_nodes(n))
+    return None
+
+
+def _replace(node, old, new):
+    """copy of `node` in which the sub-tree `old` (by identity) is replaced by a copy of `new`"""
+    if node is old:
+        return clone(new)
+    if isinstance(node, list):
+        return [_replace(x, old, new) for x in node]
+    if not isinstance(node, ast.AST):
+        return node
+    out = node.__class__.__new__(node.__class__)
+    for f in node._fields:
+        try:
+            setattr(out, f, _replace(getattr(node, f), old, new))
+        except AttributeError:
+            pass
+    for a in ("lineno", "col_offset", "end_lineno", "end_col_offset"):
+        if hasattr(node, a):
+            setattr(out, a, getattr(node, a))
+    return out
+
+
 def _is_literal(t):
     try:
         ast.literal_eval(t)
         return True
     except Exception:
-        return bool(t) and (t[0].isupper() and "." in t and t.replace(".", "").replace("_", "").isalnum())
+        import re
+        # named constants: Enum members (TPM_ST.SESSIONS) and ALL_CAPS module constants
+        return bool(re.fullmatch(r"[A-Z][A-Za-z0-9_]*(\.[A-Za-z0-9_]+)+|[A-Z][A-Z0-9_]+", t or ""))
 
 
 def _mutable_display(e):
@@ -676,9 +725,10 @@ def summarise(mod, fn, stmts=None, env=None, **kw):
 
 
 # ------------------------------------------------------------------------------ decision lists
-def decide(rules, default, path, atoms_order=None):
+def decide(rules, default, path, implies=()):
     """Three-valued evaluation of an ordered decision list over a path's (partial) atom assignment.
     rules: [(condition, outcome)] with condition a dict atom -> required truth (all must hold).
+    implies: [((atom, value), (atom, value))] known implications; completions contradicting one are ignored.
     Returns the set of outcomes over all completions of the atoms the path left undecided."""
     conds = path.conds()
     unknown = sorted({a for c, _ in rules for a in c if a not in conds})
@@ -687,6 +737,8 @@ def decide(rules, default, path, atoms_order=None):
         full = dict(conds)
         for i, a in enumerate(unknown):
             full[a] = bool(mask >> i & 1)
+        if any(full.get(a) == v and full.get(b) is not None and full.get(b) != w for (a, v), (b, w) in implies):
+            continue  # a completion that contradicts a known implication between atoms
         for c, o in rules:
             if all(full.get(a) == v for a, v in c.items()):
                 outs.add(o)
